@@ -242,7 +242,9 @@ type fmt = {
   idle : string;
   equiv : cvalue -> cvalue -> bool;   (* expected (img) vs decoded value *)
   extref : bool;    (* the reference decoder runs on the Go side (## REF tokens) *)
+  hist : string -> z list list -> string;  (* mode docs -> observation of the last document on a reused parser *)
 }
+let all_fmts : fmt list ref = ref []
 
 let res_obs (r : ((event list * z) * 'a) res) : string =
   match r with
@@ -315,7 +317,31 @@ let cbor_fmt : fmt = {
   idle = "0 0 0";
   equiv = cvalue_eqb;
   extref = false;
+  hist = (fun mode docs ->
+      let rec go p docs = match docs with
+        | [] -> "?"
+        | [ d ] ->
+            let r = if mode = "P" then p_parse p (sink0 None) d
+              else (match p_write p (sink0 None) d with
+                  | Ok ((p1, s1), e) -> Ok ((p1, s1), (if int_of_z e = -1 then finalize p1 else e))
+                  | x -> x) in
+            (match r with Ok ((_, s), e) -> Printf.sprintf "EV %s R %s" (toks_of_events (s_log s)) (verdict_of_err e)
+                        | Panic _ -> "PANIC" | OutOfFuel -> "HANG" | Err _ -> "MODELERR")
+        | d :: rest ->
+            (match (if mode = "P" then p_parse p (sink0 None) d else p_write p (sink0 None) d) with
+             | Ok ((p1, _), _) -> go p1 rest
+             | _ -> "HISTERR") in
+      go cparser0 docs);
 }
+
+(* spec-level image for UBJSON (the property text): only integers above MaxInt64 become decimal strings *)
+let rec ubj_spec_img (v : cvalue) : cvalue =
+  match v with
+  | CNum (CInt n) when ZA.gt (zt_of_z n) (ZA.of_string "9223372036854775807") ->
+      CStr (List.map (fun c -> z_of_int (Char.code c)) (List.of_seq (String.to_seq (string_of_z n))))
+  | CArr vs -> CArr (List.map ubj_spec_img vs)
+  | CObj kvs -> CObj (List.map (fun (k, x) -> (k, ubj_spec_img x)) kvs)
+  | _ -> v
 
 let ubj_obs3 (r : (((event list * z) * uparser)) res) : string =
   match r with
@@ -331,7 +357,7 @@ let ubj_fmt : fmt = {
   enc = (fun _cfg failat evs ->
       let e, idx = ubj_run (uenc0 (fail_opt failat)) evs O in
       (w_chunks e.ue_w, (match idx with None -> None | Some i -> Some (int_of_nat i)), List.length e.ue_len.ls_stack));
-  img = (fun _ t -> Some (ubj_img t));
+  img = (fun _ t -> Some (ubj_spec_img (cv (value_of t))));
   decode = ubj_decode;
   decode_stream = (fun doc fuel -> generic_stream ubj_decode skip_noops doc fuel);
   parse = (fun mode vfail chunks ->
@@ -352,6 +378,21 @@ let ubj_fmt : fmt = {
   idle = "0 0 0";
   equiv = cvalue_eqb;
   extref = false;
+  hist = (fun mode docs ->
+      let rec go p docs = match docs with
+        | [] -> "?"
+        | [ d ] ->
+            let r = if mode = "P" then up_parse p (sink0 None) d
+              else (match up_write p (sink0 None) d with
+                  | Ok ((p1, s1), e) -> if int_of_z e = -1 then Ok (ufin p1 s1) else Ok ((p1, s1), e)
+                  | x -> x) in
+            (match r with Ok ((_, s), e) -> Printf.sprintf "EV %s R %s" (toks_of_events (s_log s)) (verdict_of_err e)
+                        | Panic _ -> "PANIC" | OutOfFuel -> "HANG" | Err _ -> "MODELERR")
+        | d :: rest ->
+            (match (if mode = "P" then up_parse p (sink0 None) d else up_write p (sink0 None) d) with
+             | Ok ((p1, _), _) -> go p1 rest
+             | _ -> "HISTERR") in
+      go uparser0 docs);
 }
 
 
@@ -468,6 +509,22 @@ let json_fmt : fmt = {
   idle = "0 1 ";   (* the literal buffer may keep the digits of a number that ended the input; Parse resets it *)
   equiv = json_equiv;
   extref = true;
+  hist = (fun mode docs ->
+      let pf = parse_float_oracle in
+      let rec go p docs = match docs with
+        | [] -> "?"
+        | [ d ] ->
+            let r = if mode = "P" then jp_parse pf p (sink0 None) d
+              else (match jp_write pf p (sink0 None) d with
+                  | Ok ((p1, s1), e) -> if int_of_z e = -1 then with_final pf p1 s1 else Ok ((p1, s1), e)
+                  | x -> x) in
+            (match r with Ok ((_, s), e) -> Printf.sprintf "EV %s R %s" (toks_of_events (s_log s)) (verdict_of_err e)
+                        | Panic _ -> "PANIC" | OutOfFuel -> "HANG" | Err _ -> "MODELERR")
+        | d :: rest ->
+            (match (if mode = "P" then jp_parse pf p (sink0 None) d else jp_write pf p (sink0 None) d) with
+             | Ok ((p1, _), _) -> go p1 rest
+             | _ -> "HISTERR") in
+      go jparser0 docs);
 }
 
 (* values described by "## REF" tokens (joined with '_') *)
@@ -481,6 +538,19 @@ let ref_values (r : string) : [ `Values of cvalue list | `Err | `Range | `Skip ]
     match take_trees evs 64 with
     | Some trees -> `Values (List.map (fun t -> cv (value_of t)) trees)
     | None -> `Skip
+
+(* signature of the recorded UBJSON finding: a typed uint64/uint container mixing values above and
+   not above MaxInt64 *)
+let mixed_h_event (e : event) : bool =
+  let big n = ZA.gt (zt_of_z n) (ZA.of_string "9223372036854775807") in
+  let mixed l = List.exists (function SNum (_, n) -> big n | _ -> false) l
+                && List.exists (function SNum (_, n) -> not (big n) | _ -> false) l in
+  match e with
+  | EXArr ((BUint64 | BUint), es) -> mixed es
+  | EXObj ((BUint64 | BUint), ms) -> mixed (List.map snd ms)
+  | _ -> false
+let sig_of (f_name : string) (evs : event list) : string =
+  if f_name = "ubj" && List.exists mixed_h_event evs then " sig=ubj-typed-uint-mixed-H" else ""
 
 (* ---- encoder cases ---- *)
 let enc_case (f : fmt) (input : string) (obs : string) : verdict =
@@ -519,7 +589,7 @@ let enc_case (f : fmt) (input : string) (obs : string) : verdict =
                     (match decoded with
                      | `Values got when List.length got = List.length want && List.for_all2 f.equiv want got -> ()
                      | `Skip -> ()
-                     | _ -> oracle := ("C07", "reference decoder does not read back the stream's value from " ^ hex_of_bytes out) :: !oracle);
+                     | _ -> oracle := ("C07", "reference decoder does not read back the stream's value" ^ sig_of f.fname evs ^ " from " ^ hex_of_bytes out) :: !oracle);
                     if f.fname = "json" then begin
                       (* C07 text predicates *)
                       if not (utf8_valid out) then oracle := ("C07", "output is not valid UTF-8") :: !oracle;
@@ -696,9 +766,222 @@ let dec_case (f : fmt) (input : string) (obs0 : string) : verdict =
 
 let dec_case f input obs = try dec_case f input obs with Unknown_float -> { model = fst (split_flags obs); oracle = [] }
 
+
+(* ---- C01: encode then parse ---- *)
+let rt_case (f : fmt) (input : string) (obs0 : string) : verdict =
+  let obs, _ = split_flags_all obs0 in
+  match Str.split_delim (Str.regexp_string "|") input with
+  | h :: toks :: tabseg ->
+      let cfg = int_of_string (String.trim h) in
+      let evs = events_of_toks (words toks) in
+      (match tabseg with t :: _ -> current_ftab := float_table t | [] -> ());
+      let chunks, idx, _ = f.enc cfg (-1) evs in
+      let bytes = List.concat chunks in
+      let model =
+        match idx with
+        | Some i -> Printf.sprintf "B %s E %s" (hex_of_bytes bytes) (if i >= 0 then string_of_int i else string_of_int (- i - 1) ^ "!")
+        | None -> Printf.sprintf "B %s E - %s" (hex_of_bytes bytes) (f.parse "P" (-1) [ bytes ]) in
+      let oracle = ref [] in
+      (match take_trees evs 64 with
+       | Some trees when List.for_all wf_tree trees ->
+           let wants = List.map (f.img cfg) trees in
+           let refused = List.exists (fun w -> w = None) wants in
+           (match words obs with
+            | "B" :: _ :: "E" :: e :: rest ->
+                if refused then begin
+                  if e = "-" then oracle := ("C01", "a value the format must refuse was encoded") :: !oracle
+                end
+                else if e <> "-" then oracle := ("C01", "encoder refused a well-formed stream") :: !oracle
+                else begin
+                  match rest with
+                  | "EV" :: r2 ->
+                      let toks, r3 = split_at "R" r2 in
+                      let verdict = match r3 with v :: _ -> v | [] -> "?" in
+                      if verdict <> "ok" then oracle := ("C01", "own parser refuses the encoder's output: " ^ verdict) :: !oracle
+                      else begin
+                        let want = List.map (function Some w -> w | None -> CNil) wants in
+                        match take_trees (events_of_toks toks) 64 with
+                        | Some ts ->
+                            let got = List.map (fun t -> cv (value_of t)) ts in
+                            if not (List.length got = List.length want && List.for_all2 f.equiv want got) then
+                              oracle := ("C01", "decoded value differs from the encoded value" ^ sig_of f.fname evs) :: !oracle
+                        | None -> oracle := ("C01", "parser output is not a well-formed stream") :: !oracle
+                      end
+                  | _ -> oracle := ("C01", "round trip crashed: " ^ obs) :: !oracle
+                end
+            | _ -> oracle := ("C01", "round trip crashed: " ^ obs) :: !oracle)
+       | _ -> ());
+      { model; oracle = !oracle }
+  | _ -> failwith "rt: bad input"
+let rt_case f input obs = try rt_case f input obs with Unknown_float -> { model = fst (split_flags obs); oracle = [] }
+
+(* ---- C08: transcoding ---- *)
+let rec ubj_img_c (v : cvalue) : cvalue =
+  match v with
+  | CNum (CInt n) when ZA.gt (zt_of_z n) (ZA.of_string "9223372036854775807") ->
+      CStr (List.map (fun c -> z_of_int (Char.code c)) (List.of_seq (String.to_seq (string_of_z n))))
+  | CArr vs -> CArr (List.map ubj_img_c vs)
+  | CObj kvs -> CObj (List.map (fun (k, x) -> (k, ubj_img_c x)) kvs)
+  | _ -> v
+
+let rec json_img_c (ignore_inv : bool) (v : cvalue) : cvalue =
+  match v with
+  | CStr s -> CStr (sanitize s)
+  | CNum (CF64 b) when int_of_z (nonfinite_b (z_of_int 64) b) = 1 -> if ignore_inv then CNil else raise Refuse
+  | CNum (CF32 b) when int_of_z (nonfinite_b (z_of_int 32) b) = 1 -> if ignore_inv then CNil else raise Refuse
+  | CArr vs -> CArr (List.map (json_img_c ignore_inv) vs)
+  | CObj kvs -> CObj (List.map (fun (k, x) -> (sanitize k, json_img_c ignore_inv x)) kvs)
+  | _ -> v
+
+let img_c (dst : string) (cfg : int) (v : cvalue) : cvalue option =
+  if dst = "ubj" then Some (ubj_img_c v)
+  else if dst = "json" then (try Some (json_img_c (cfg land 2 <> 0) v) with Refuse -> None)
+  else Some v
+
+let fmt_by_name n = List.find (fun f -> f.fname = n) !all_fmts
+
+let xc_case (input : string) (obs0 : string) : verdict =
+  let obs, flags = split_flags_all obs0 in
+  let segs = Str.split_delim (Str.regexp_string "|") input in
+  (match segs with _ :: t :: _ -> current_ftab := float_table t | _ -> ());
+  match words (List.hd segs) with
+  | sn :: dn :: cfg :: chunks ->
+      let src = fmt_by_name sn and dst = fmt_by_name dn in
+      let cfg = int_of_string cfg in
+      let chunks = chunks_of_toks chunks in
+      let doc = List.concat chunks in
+      (* model: events of the source parser fed to the target encoder *)
+      let pobs = src.parse "W" (-1) chunks in
+      let model =
+        match words pobs with
+        | "EV" :: rest ->
+            let toks, r = split_at "R" rest in
+            let pverdict = match r with v :: _ -> v | [] -> "?" in
+            (* the parser delivers by-reference strings through MakeStringRefVisitor; encoders accept them *)
+            let evs = events_of_toks toks in
+            let och, idx, _ = dst.enc cfg (-1) evs in
+            Printf.sprintf "B %s R %s" (hex_of_bytes (List.concat och)) (if idx <> None then "err" else pverdict)
+        | _ -> pobs in
+      let depth = match Str.bounded_split_delim (Str.regexp_string " D ") obs 2 with [ _; d ] -> " D " ^ d | _ -> "" in
+      let oracle = ref [] in
+      (match words obs with
+       | "B" :: out :: "R" :: verdict :: _ ->
+           let out = bytes_of_hex out in
+           let sref =
+             if src.extref then (match find_flag "SREF" flags with Some r -> (match ref_values r with `Values v -> `Values v | _ -> `Other) | None -> `Other)
+             else (match src.decode_stream doc 64 with `Values v -> `Values v | _ -> `Other) in
+           (match sref with
+            | `Values svals ->
+                let wants = List.map (img_c dn cfg) svals in
+                if List.exists (fun w -> w = None) wants then begin
+                  if verdict = "ok" then oracle := ("C08", "a value the target format must refuse was transcoded") :: !oracle
+                end
+                else if verdict <> "ok" then oracle := ("C08", "valid source document not transcoded: " ^ verdict) :: !oracle
+                else begin
+                  let want = List.map (function Some w -> w | None -> CNil) wants in
+                  let dref =
+                    if dst.extref then (match find_flag "DREF" flags with Some r -> (match ref_values r with `Values v -> `Values v | `Skip -> `Skip | _ -> `Bad) | None -> `Skip)
+                    else (match dst.decode_stream out 64 with `Values v -> `Values v | _ -> `Bad) in
+                  (match dref with
+                   | `Values got when List.length got = List.length want && List.for_all2 dst.equiv want got -> ()
+                   | `Skip -> ()
+                   | _ -> oracle := ("C08", "target document does not have the source's value: " ^ hex_of_bytes out) :: !oracle);
+                  if depth <> " D 0" && depth <> "" then oracle := ("C17", "encoder stack not idle after transcoding complete documents") :: !oracle
+                end
+            | `Other -> ());
+           if verdict = "PANIC" || verdict = "HANG" then oracle := ("C08", "transcoding crashed") :: !oracle
+       | _ -> oracle := ("C08", "transcoding crashed: " ^ obs) :: !oracle);
+      { model = model ^ depth; oracle = !oracle }
+  | _ -> failwith "xc: bad input"
+let xc_case input obs = try xc_case input obs with Unknown_float -> { model = fst (split_flags obs); oracle = [] }
+
+(* ---- C10: extended event vs expansion ---- *)
+let x10_case (f : fmt) (input : string) (obs0 : string) : verdict =
+  let obs, flags = split_flags_all obs0 in
+  match Str.split_delim (Str.regexp_string "|") input with
+  | h :: pre :: x :: suf :: tabseg ->
+      let cfg = int_of_string (String.trim h) in
+      let pre = events_of_toks (words pre) and suf = events_of_toks (words suf) in
+      let x = match events_of_toks (words x) with [ e ] -> e | _ -> failwith "x10: one event" in
+      (match tabseg with t :: _ -> current_ftab := float_table t | [] -> ());
+      let one mid =
+        let ch, idx, depth = f.enc cfg (-1) (pre @ mid @ suf) in
+        Printf.sprintf "%s %d E %s" (hex_of_bytes (List.concat ch)) depth (if idx = None then "-" else "err") in
+      let model = "A " ^ one [ x ] ^ " B " ^ one (expand x) in
+      let oracle = ref [] in
+      (match words obs with
+       | [ "A"; ha; da; "E"; ea; "B"; hb; db; "E"; eb ] ->
+           if da <> db then oracle := ("C10", "consumer left in a different state: depth " ^ da ^ " vs " ^ db) :: !oracle;
+           if ea <> eb then oracle := ("C10", "extended event and expansion differ in success") :: !oracle
+           else if ea = "-" then begin
+             let dec h key =
+               if f.extref then (match find_flag key flags with Some r -> (match ref_values r with `Values v -> `Values v | `Skip -> `Skip | _ -> `Bad) | None -> `Skip)
+               else (match f.decode_stream (bytes_of_hex h) 64 with `Values v -> `Values v | _ -> `Bad) in
+             match dec ha "AREF", dec hb "BREF" with
+             | `Values a, `Values b ->
+                 if not (List.length a = List.length b && List.for_all2 cvalue_eqb a b) then
+                   oracle := ("C10", "extended event and its expansion decode to different values" ^ sig_of f.fname [ x ]) :: !oracle
+             | `Skip, _ | _, `Skip -> ()
+             | `Bad, _ -> oracle := ("C10", "document written with the extended event is invalid") :: !oracle
+             | _, `Bad -> oracle := ("C10", "document written with the expansion is invalid") :: !oracle
+           end
+       | _ -> oracle := ("C10", "encoder crashed: " ^ obs) :: !oracle);
+      { model; oracle = !oracle }
+  | _ -> failwith "x10: bad input"
+let x10_case f input obs = try x10_case f input obs with Unknown_float -> { model = fst (split_flags obs); oracle = [] }
+
+(* ---- C17: histories on one parser ---- *)
+let hist_case (f : fmt) (input : string) (obs0 : string) : verdict =
+  let obs, flags = split_flags_all obs0 in
+  if obs = "HISTERR" then { model = obs; oracle = [] } else
+  match words input with
+  | mode :: docs ->
+      let docs = chunks_of_toks docs in
+      let model = f.hist mode docs in
+      let depth = match Str.bounded_split_delim (Str.regexp_string " D ") obs 2 with [ _; d ] -> " D " ^ d | _ -> "" in
+      let oracle = ref [] in
+      (match List.filter (fun x -> starts_with x "C17 ") flags with
+       | x :: _ -> oracle := ("C17", "reused parser differs from a fresh one on the probe document: " ^ x) :: !oracle
+       | [] -> ());
+      { model = model ^ depth; oracle = !oracle }
+  | _ -> failwith "hist: bad input"
+let hist_case f input obs = try hist_case f input obs with Unknown_float -> { model = fst (split_flags obs); oracle = [] }
+
+(* ---- adapters ---- *)
+let adapt_case (input : string) (obs : string) : verdict =
+  match Str.bounded_split_delim (Str.regexp_string "|") input 2 with
+  | [ h; x ] ->
+      let failat = int_of_string (String.trim h) in
+      let x = match events_of_toks (words x) with [ e ] -> e | _ -> failwith "adapt: one event" in
+      let s, ok = adapter (sink0 (fail_opt failat)) x in
+      let model = Printf.sprintf "EV %s E %s" (toks_of_events (s_log s)) (if ok then "ok" else "inj") in
+      let oracle = ref [] in
+      (match words obs with
+       | "EV" :: rest ->
+           let toks, r = split_at "E" rest in
+           let v = match r with v :: _ -> v | [] -> "?" in
+           let evs = events_of_toks toks in
+           let ex = expand x in
+           if failat < 0 || failat >= List.length ex then begin
+             if evs <> ex then oracle := ("C10", "wrapped plain visitor did not receive the expansion") :: !oracle;
+             if v <> "ok" then oracle := ("C10", "adapter failed without a visitor error") :: !oracle;
+             (match x with
+              | EXArr _ | EXObj _ -> if not (contract_ok evs) then oracle := ("C09", "adapter emitted an ill-formed stream") :: !oracle
+              | _ -> ())
+           end else begin
+             if List.length evs <> failat + 1 then oracle := ("C16", "adapter delivered events after the visitor failed") :: !oracle;
+             if v <> "inj" then oracle := ("C16", "adapter did not return the visitor's error: " ^ v) :: !oracle
+           end
+       | _ -> oracle := ("C10", "adapter crashed: " ^ obs) :: !oracle);
+      { model; oracle = !oracle }
+  | _ -> failwith "adapt: bad input"
+
 let fmts = [ cbor_fmt; ubj_fmt; json_fmt ]
+let () = all_fmts := fmts
 let fmt_handlers =
-  List.concat_map (fun f -> [ (f.fname ^ "enc", enc_case f); (f.fname ^ "parse", parse_case f); (f.fname ^ "dec", dec_case f) ]) fmts
+  ("xc", xc_case) :: ("adapt", adapt_case) ::
+  List.concat_map (fun f -> [ (f.fname ^ "enc", enc_case f); (f.fname ^ "parse", parse_case f); (f.fname ^ "dec", dec_case f);
+                              ("rt" ^ f.fname, rt_case f); ("x10" ^ f.fname, x10_case f); ("hist" ^ f.fname, hist_case f) ]) fmts
 
 let contains s sub = try ignore (Str.search_forward (Str.regexp_string sub) s 0); true with Not_found -> false
 (* a crash or hang is compared as such: what was delivered before is not part of the observation *)
